@@ -96,7 +96,7 @@ func (ev *Evaluator) note(t types.Type, v Term) {
 		return
 	}
 	for _, f := range facts {
-		if ev.fx.assumeMode {
+		if ev.fx.assumeMode && ev.fx.s.curTag == 0 {
 			ev.fx.s.assume(ev.st.guard, f)
 		} else {
 			ev.fx.s.assumeLocal(ev.st.guard, f)
